@@ -26,6 +26,9 @@ def plan(pid, tier, seed):
         runs.append(("drive-shapeb", lambda: engines.drive(tier, seed, small=True, shape="b", label="drive-shapeb")))
     if pid in ("C13", "C03"):
         runs.append(("world_tour", lambda: engines.world_tour(tier, seed)))
+    if pid in ("C13", "C17"):
+        # the two-world model with created / destroyed logs and clear_events, events build
+        runs.append(("world_tour-events", lambda: engines.world_tour(tier, seed, features=("events",))))
     if pid in ("C06", "C07"):
         runs.append(("loops", lambda: engines.loops(tier, seed)))
     if pid in ("C13", "C07", "C01"):
